@@ -633,3 +633,21 @@ pub fn gen_any_plan(rng: &mut Rng, input: &[u8], default_mode: bool, sep: &[u8])
     let eintr = rng.chance(1, 3);
     gen_read_plan(rng, input, states.as_deref(), sep, fam, eintr, None)
 }
+
+/// Options the statements do not mention and that must not change what they describe:
+/// -t (echo on stderr), -P N (accepted, ignored), -a FILE (another source for the same bytes).
+pub fn add_neutral_xargs_opts(rng: &mut Rng, opts: &mut Vec<crate::xargs::Opt>) {
+    use crate::xargs::Opt;
+    if rng.chance(1, 8) {
+        let at = rng.usize_below(opts.len() + 1);
+        opts.insert(at, Opt::Verbose);
+    }
+    if rng.chance(1, 10) {
+        let at = rng.usize_below(opts.len() + 1);
+        opts.insert(at, Opt::MaxProcs(*rng.pick(&[0usize, 1, 2, 8])));
+    }
+    if rng.chance(1, 10) {
+        let at = rng.usize_below(opts.len() + 1);
+        opts.insert(at, Opt::ArgFile);
+    }
+}
